@@ -155,6 +155,7 @@ structure RespTranscoder where
   mime : Bytes                              -- ContentType(): the negotiated response type
   status : St → Except Bytes Bytes          -- Transcode(google.rpc.Status): body bytes, or the error's text
   streams : Bool                            -- implements ResponseStreamTranscoder
+  sse : Bool := false                       -- bound in SSE mode (Accept: text/event-stream, no Accept line matched)
 
 /-- `writeTextError` = `http.Error(w, st.Message(), respStatus)`. -/
 def writeTextError (e : RawErr) : Written :=
@@ -235,6 +236,11 @@ def pickResponseMarshaler (r : Registry) : List Bytes → Option Marshaler
     | none => pickResponseMarshaler r rest
 
 def eventStream : Bytes := ascii "text/event-stream"
+
+/-- `standardResponseTranscoder.ContentType(msg)` for a response message: an SSE-bound transcoder serves
+    `text/event-stream`, any other the marshaler's type. For a `google.rpc.Status` it is always the marshaler's type
+    (`RespTranscoder.mime`): an error is rendered by `Transcode` as one plain document, never as an event. -/
+def RespTranscoder.msgType (t : RespTranscoder) : Bytes := if t.sse then eventStream else t.mime
 
 structure Bound where
   req : Marshaler
@@ -450,7 +456,7 @@ def serveStream (sc : Scenario) (env : Env) (t : RespTranscoder) (sse : Bool) : 
       failResp .responseEncode false (some t) (responseTranscodingError (respPathErr env)) h1
     | some sel =>
       -- n messages were written; a later error is not rendered (writtenStatus), trailers use TrailerPrefix
-      { status := 200, ct := some t.mime, nosniff := false, body := .items sel sc.n sse, hdrs := h1,
+      { status := 200, ct := some t.msgType, nosniff := false, body := .items sel sc.n sse, hdrs := h1,
         trls := appendHeaders [] (trailerMD sc), origin := none, err := none, bound := true }
 
 /-- `forwardUnaryResponse` followed by `httpStream.send`. -/
@@ -468,7 +474,7 @@ def serveUnary (sc : Scenario) (env : Env) (t : RespTranscoder) : Resp :=
     match traverseFieldPath respFields sc.rbp with
     | none => failResp .responseEncode false (some t) (responseTranscodingError (respPathErr env)) h2
     | some sel =>
-      { status := 200, ct := some t.mime, nosniff := false, body := .bytes (env.msgEnc sel), hdrs := h2, trls := [],
+      { status := 200, ct := some t.msgType, nosniff := false, body := .bytes (env.msgEnc sel), hdrs := h2, trls := [],
         origin := none, err := none, bound := true }
 
 /-- `ProxyForwarder.Forward` for a non-client-streaming method, as far as it decides what `ServeHTTP` renders. -/
@@ -487,7 +493,7 @@ def serveForward (sc : Scenario) (env : Env) (t : RespTranscoder) (sse : Bool) :
 
 /-- `ServeHTTP` after a successful `routeTranscodedRequest`. -/
 def serveBound (sc : Scenario) (env : Env) (b : Bound) : Resp :=
-  let t : RespTranscoder := { mime := b.resp.mime, status := env.stEnc, streams := b.resp.streams }
+  let t : RespTranscoder := { mime := b.resp.mime, status := env.stEnc, streams := b.resp.streams, sse := b.sse }
   if sc.rpc == .clientStream then failResp .bridge false (some t) (unimplementedClientStreaming env) []
   else if sc.rpc == .serverStream && !b.resp.streams then failResp .bridge false (some t) (cannotStreamErr env) []
   else serveForward sc env t b.sse
